@@ -18,7 +18,7 @@ from ..cfg import CFG, node_calls
 from .c03 import model, graph
 
 LEVEL = "other"
-TECHNIQUE = ('write-set inventory of long-lived objects over the resolved parse call graph vs. must-assign set of the reset roots (CFG dominance); pairing rule for per-phase scratch state; memo / publication checks for module-level and closure caches')
+TECHNIQUE = ('write-set inventory of long-lived objects over the resolved parse call graph vs. must-assign set of the reset roots (CFG dominance); pairing rule for per-phase scratch state; memo / publication checks for module-level and closure caches; stateful-instance and suspended-generator-state rules on shared objects')
 CLAIM = ('Every attribute of the objects that survive a parse (HTMLParser, its 23 phase objects, the '
          'TreeBuilder) that any function reachable from the main loop can write is either re-initialised on '
          'every path through _parse/reset/TreeBuilder.reset, or is scratch state of one phase that is re- '
@@ -28,7 +28,7 @@ CLAIM = ('Every attribute of the objects that survive a parse (HTMLParser, its 2
          'without a per-instance rebind in __init__. A handler slot that survives reset() holds only handlers '
          'that restore the default and re-validate the current node; factory caches key on keyword values.'
          ' The shared factory cache publishes only finished values and guards each level with the key it creates.'
-         ' What a reset root stores it stores on every path and from arguments and constants only; a cached value built from a parameter is keyed by the parameter itself, not by a projection of it.')
+         ' What a reset root stores it stores on every path and from arguments and constants only; a cached value built from a parameter is keyed by the parameter itself, not by a projection of it. A module-level memo holds no instance of a class whose methods rewrite its attributes. serialize() keeps per-call state on the object across its yields (two known findings).')
 NOT_DECIDED = "thread interleavings beyond the shared-state inventory and the cache-publication rule; state kept inside third-party objects."
 MODULES = ["html5parser.py", "treebuilders/base.py", "treebuilders/etree.py", "treebuilders/dom.py", "_tokenizer.py",
            "_inputstream.py", "_utils.py", "_trie/py.py", "_trie/_base.py", "serializer.py", "treebuilders/__init__.py",
